@@ -1,0 +1,13 @@
+//go:build verif
+
+package ulidutils
+
+// Assumed contract (trusted, not verified: relies on oklog/ulid's monotonic
+// entropy) for the deductive verifier in /verif (gocv). Comment-only file.
+
+// issued: every version string NewID has handed out so far
+//@ ghostglobal issued set[string]
+
+//@ assumed func NewID() string
+//@   modifies issued
+//@   ensures !in(r0, old(issued)) && issued == add(old(issued), r0) && r0 != ""
